@@ -1301,6 +1301,63 @@ def r6_levels(ctx, ci, rule):
                            _fmt(created[1])),
                           {"first": first, "last": last}, lp)
     ctx.floor(rule, cnt, 3, "full-region consumers (level loops or flattened)")
+    # ... and the normaliser writes only levels of that range: what it put at
+    # a level outside 1..maxdepth (the 12 base pixels, say) no consumer
+    # enumerates
+    rn = ci.methods.get("_renorm")
+    if rn is None:
+        raise AnalysisError("Region._renorm missing")
+    al = pixeldict_aliases(rn.node)
+    nw = 0
+    for lp in walk_no_nested(rn.node):
+        if not (isinstance(lp, ast.For) and isinstance(lp.target, ast.Name)):
+            continue
+        rb = _range_bounds(lp.iter)
+        if rb is None:
+            continue
+        step = lp.iter.args[2] if len(lp.iter.args) == 3 else None
+        down = step is not None and norm(step).replace(" ", "") == "-1"
+        a_ = linear(_subst_maxdepth(rb[0]), "MAXDEPTH")
+        b_ = linear(_subst_maxdepth(rb[1]), "MAXDEPTH")
+        if a_ is None or b_ is None:
+            continue
+        # values taken by the loop variable: first .. last
+        first, last = (a_, (b_[0], b_[1] + 1)) if down else \
+            (a_, (b_[0], b_[1] - 1))
+        for c in ast.walk(lp):
+            lvl = None
+            if isinstance(c, ast.Call) and isinstance(c.func, ast.Attribute):
+                if c.func.attr in ("add", "update"):
+                    o = levelset_owner(c.func.value, al)
+                    if o and o[0] == "self":
+                        lvl = o[1]
+                    elif isinstance(c.func.value, ast.Call) and \
+                            isinstance(c.func.value.func, ast.Attribute) and \
+                            c.func.value.func.attr == "setdefault" and \
+                            c.func.value.args:
+                        lvl = c.func.value.args[0]
+            if lvl is None:
+                continue
+            off = linear(lvl, lp.target.id)
+            if off is None or off[0] != 1:
+                continue
+            nw += 1
+            ends = [(first[0], first[1] + off[1]), (last[0], last[1] + off[1])]
+            lo_w = min(ends, key=lambda t: (t[0], t[1]))
+            hi_w = max(ends, key=lambda t: (t[0], t[1]))
+            ok = (lo_w[0], lo_w[1]) >= (created[0][0], created[0][1]) and \
+                hi_w[0] <= created[1][0] and (
+                    hi_w[0] < created[1][0] or hi_w[1] <= created[1][1])
+            ctx.check(rule, rn, "levels written by " + norm(c, 50), ok,
+                      "the normaliser writes levels %s..%s, outside the "
+                      "levels %s..%s that __init__ creates and every "
+                      "consumer enumerates: pixels promoted there (complete "
+                      "level-1 quads -> base pixels) are missing from the "
+                      "exports until some query flattens the region" %
+                      (_fmt(lo_w), _fmt(hi_w), _fmt(created[0]),
+                       _fmt(created[1])), node=c)
+    ctx.floor(rule, nw + cnt, 4, "level writes of _renorm and full-region "
+              "consumers")
 
 
 def r8(ctx, ci):
